@@ -204,6 +204,50 @@ fn hist_vs_fresh<const N: usize, const M: usize>(rep: &mut EngineReport, k: u8, 
     rep.cx.merge(cx);
 }
 
+/// Element shapes for equality: every fresh layout (every ordered subset of the universe with every value
+/// assignment - so every permutation and rotation of the same contents) against every fresh layout, for
+/// value types of other sizes: 128-byte and 64-byte over-aligned values, zero-sized values, `String`.
+fn shapes_pass<V: mc::payload::ValT, const N: usize, const M: usize>(rep: &mut EngineReport, k: u8, v: u8, threads: usize) {
+    let la = layouts(k, v, N);
+    let lb = layouts(k, v, M);
+    let config = format!("Map<u8,{},{N}> == Map<u8,{},{M}>: every fresh layout against every fresh layout ({} x {}); keys={k} values={v}", V::NAME, V::NAME, la.len(), lb.len());
+    let mut cx = rep.cx.fork();
+    cx.here.config = config.clone();
+    let t0 = std::time::Instant::now();
+    par_states(la.len(), threads, &mut cx, |i, lcx| {
+        let mut a: Map<u8, V, N> = Map::new();
+        for (kk, vv) in &la[i] {
+            a.insert(*kk, V::mk(*vv));
+        }
+        let am: BTreeMap<u8, u8> = la[i].iter().map(|(kk, vv)| (*kk, V::mk(*vv).vd().v)).collect();
+        lcx.here.path = vec![format!("A = {:?} (slot order as listed)", la[i])];
+        lcx.here.path_idx = vec![i as u32];
+        lcx.here.extra = format!("caps={N},{M} shape {}", V::NAME);
+        for (j, l) in lb.iter().enumerate() {
+            let mut b: Map<u8, V, M> = Map::new();
+            for (kk, vv) in l {
+                b.insert(*kk, V::mk(*vv));
+            }
+            let bm: BTreeMap<u8, u8> = l.iter().map(|(kk, vv)| (*kk, V::mk(*vv).vd().v)).collect();
+            lcx.here.op = format!("eq with B = {l:?}");
+            lcx.here.op_idx = j as u32;
+            lcx.evaluations += 1;
+            if !am.is_empty() || !bm.is_empty() {
+                lcx.nontrivial += 1;
+            }
+            let want = am == bm;
+            let (ab, ba) = (a == b, b == a);
+            lcx.check(PM, ab == want && ba == want, || format!("A == B is {ab}, B == A is {ba}, but the contents are {am:?} vs {bm:?}"));
+        }
+        let r = a == a;
+        lcx.check(PM, r, || "A == A is false".to_string());
+    });
+    rep.configs.push(J::obj().set("config", config).set("pairs", la.len() * lb.len()).set("wall_s", t0.elapsed().as_secs_f64()));
+    rep.states += (la.len() + lb.len()) as u64;
+    rep.transitions += cx.evaluations;
+    rep.cx.merge(cx);
+}
+
 fn lcx_hist(ops: &[HOp], seq: &[usize]) -> Vec<String> {
     seq.iter().map(|i| format!("{:?}", ops[*i])).collect()
 }
@@ -367,6 +411,13 @@ fn main() {
     sets::<3, 3>(&mut rep, k, depth, threads);
     sets::<4, 2>(&mut rep, k, depth, threads);
     sets::<0, 3>(&mut rep, k, 1, threads);
+    let ks = k.max(4);
+    shapes_pass::<mc::payload::Big, 4, 4>(&mut rep, ks, v, threads);
+    shapes_pass::<mc::payload::Big, 3, 4>(&mut rep, ks, v, threads);
+    shapes_pass::<mc::payload::Al, 4, 4>(&mut rep, ks, v, threads);
+    shapes_pass::<(), 4, 3>(&mut rep, ks, 1, threads);
+    shapes_pass::<String, 4, 4>(&mut rep, ks, v, threads);
+    shapes_pass::<u8, 4, 4>(&mut rep, ks, v, threads);
     // non-vacuity: every difference class must have been seen
     for c in ["equal", "differ:one-value", "differ:one-key-same-len", "differ:len", "differ:subset-with-same-values"] {
         if rep.cx.classes.get(c).copied().unwrap_or(0) == 0 && rep.cx.enabled & PM != 0 {
